@@ -37,6 +37,12 @@ def replay(modname, cname, args, tier=None):
     try:
         r = fn(**args)
     except Exception as e:  # noqa
+        last = traceback.extract_tb(e.__traceback__)[-1]
+        here = os.path.dirname(os.path.dirname(os.path.abspath(__file__)))
+        if isinstance(e, (AttributeError, ImportError, NameError)) and os.path.abspath(last.filename).startswith(here + os.sep):
+            # the HARNESS reached for something the code under test no longer has (a private attribute, a moved name): that says
+            # nothing about the property - it is a harness error (exit 2), never a violation
+            return "harness-error: %s: %s at %s:%s" % (type(e).__name__, e, last.filename, last.lineno)
         tb = traceback.format_exc().strip().splitlines()
         return "%s(**%r) raised %s: %s  [%s]" % (fn.__name__, args, type(e).__name__, e, tb[-3].strip() if len(tb) > 2 else "")
     if not r:
